@@ -5,6 +5,7 @@ on the real statements, for graphs of any size:
   * EdgeStep  (inner loop, one edge n -> m): column m of the path matrix becomes (column m) OR (column n) OR {n}, no other
     entry changes; m loses exactly n from its remaining direct ancestors, nobody else's remaining ancestors change; m is
     enqueued iff it has no remaining ancestor, and nothing else is enqueued;
+  * InitRoots (first loop): exactly the nodes without direct ancestor are enqueued;
   * NodeStep  (outer loop, one dequeued node n): n is appended to the order, is the node that was at the front of the
     queue, and its edges are then processed;
   * the acyclicity test after the loop: ValueError iff some node was never emitted;
@@ -229,6 +230,35 @@ class NodeStep(Spec):
         return [("the loop ends", z3.BoolVal(True))]
 
 
+def roots_post(cx, env, snap, k, view):
+    q, anc = env["q_roots"], env["direct_ancestors_"]
+    new = q.puts[snap:]
+    n = view.elem_z3(k)
+    y = name_const("y_r")
+    is_root = z3.ForAll([y], z3.Not(z3.Select(anc.at(n), y)))
+    return [("the node is enqueued iff it has no direct ancestor; nothing else is enqueued",
+             z3.And(z3.BoolVal(len(new) <= 1), z3.BoolVal(len(new) == 1) == is_root, *[to_z3(p) == n for p in new]))]
+
+
+class InitRoots(Spec):
+    """the loop before the main one: every node without a direct ancestor -- and no other -- is put in the queue (one arbitrary
+    iteration over the nodes)."""
+    target = DAG
+    fragment = (lambda t: t.startswith("for n, s_ancestors in direct_ancestors_.items()"), lambda t: t.startswith("for n, s_ancestors in direct_ancestors_.items()"))
+
+    def __init__(self):
+        self.loops = {("VariablesDAG.compute_topological_order_and_path_matrix", 0): LoopSpec(
+            lambda cx, env, k, view: [], modifies=lambda cx, env: [env["q_roots"]],
+            iter_pre=lambda cx, env, k, view: len(env["q_roots"].puts), iter_post=roots_post)}
+
+    def setup(self, cx, cfg):
+        ix, anc, P, q = kahn_env(cx)
+        return dict(env={"direct_ancestors_": anc, "q_roots": q})
+
+    def post(self, cx, st, out):
+        return [("the loop ends", z3.BoolVal(True))]
+
+
 class AcyclicityTest(Spec):
     """the statement after the loop: ValueError ('not a DAG') iff some node was never emitted (given that only nodes are emitted)."""
     target = DAG
@@ -278,7 +308,7 @@ def LEMMAS():
     return out
 
 
-UNITS = [EdgeStep(), NodeStep(), AcyclicityTest()]
+UNITS = [InitRoots(), EdgeStep(), NodeStep(), AcyclicityTest()]
 CALLEES = []
 ASSUMPTIONS = ["C15: queue.SimpleQueue as a FIFO sequence (put appends, get removes the front); len(s) == 0 iff the set s is empty; "
                "frozenset.difference by its set-algebra meaning; a boolean tensor column update `P[:, j] |= P[:, i]` entry-wise",
